@@ -310,7 +310,10 @@ KV_SHAPES = ['k = 1', 'k = "v"', 'k = "a;b,c"', 'k = x', 'k', 'k:? = x', 'k:% = 
              # a block inside the value, with a statement and a string literal of its own; a struct literal with commas
              'k = if c { g(); "p" } else { "q" }', 'k = m { a: 1, b: "v" }.b',
              # expressions with a string literal in the middle, commas and semicolons inside brackets, a bracket in a character literal
-             'k = x == "y"', 'k = h(1, "a;b")', 'k = t[i]', 'k = vec!["p"; 2].len()', "k = s.find('(')"]
+             'k = x == "y"', 'k = h(1, "a;b")', 'k = t[i]', 'k = vec!["p"; 2].len()', "k = s.find('(')",
+             # comparison / shift / arrow characters inside brackets; comment-like text in a quoted key; a quote as an escaped character literal
+             'k = check(n > 0, y)', 'k = match n { 1 => "one", _ => "many" }', 'k = max(x >> 1, y)', '"http://probe" = x',
+             "k = line.find('\\\"')", 'k = sum(v[0], v[1])']
 MESSAGES = ['plain', '{} {}', '{name:?}', 'say \\"hi\\"', 'é名😀', 'mid [ref: 12] text', ' leading blank', '\\tleading escape',
             '//host/path', '/* x */ y', '', '{{x}}', 'ends \\\\']
 TRAILING = ['', ', x', ', x, y', ', a = 1', ', "lit"', ',']
